@@ -1,9 +1,13 @@
 """C19 - GSM time arithmetic is consistent across the code base (libosmocore, firmware sync.c, Python toolkit)."""
 import os, random
-import z3
-from .. import core, env, pysym, llsym, cjob
+from .. import core, env, pysym
 from ..core import eq, band
-from ..llsym import V, C, Ptr, Exec
+try:
+    import z3
+    from .. import llsym, cjob
+    from ..llsym import V, C, Ptr, Exec
+except ImportError:          # replay interpreter (no z3): only the Python-side harness is used there
+    z3 = None
 from .common import HYPER
 
 META = dict(
@@ -15,16 +19,17 @@ META = dict(
     explanation='the C functions are compiled from the working tree to LLVM IR and executed symbolically; one inductive step from EVERY frame number replaces walking the hyperframe: time_inc(time(fn), d) == time((fn+d) mod 2715648) component-wise, '
                 'recomposition(decomposition(fn)) == fn, Python tuple == C fields')
 
-SYNC = os.path.join(cjob.FW, 'layer1/sync.c')
-GSMU = os.path.join(cjob.LIBOSMO, 'src/gsm/gsm_utils.c')
-GSMU_INC = [os.path.join(cjob.SHIM, 'cfg/a/b'), os.path.join(cjob.LIBOSMO, 'include')]
+if z3 is not None:
+    SYNC = os.path.join(cjob.FW, 'layer1/sync.c')
+    GSMU = os.path.join(cjob.LIBOSMO, 'src/gsm/gsm_utils.c')
+    GSMU_INC = [os.path.join(cjob.SHIM, 'cfg/a/b'), os.path.join(cjob.LIBOSMO, 'include')]
 # struct gsm_time { u32 fn; u16 t1; u8 t2; u8 t3; u8 tc; }
 OFF = dict(fn=(0, 4), t1=(4, 2), t2=(6, 1), t3=(7, 1), tc=(8, 1))
 
 
 def jobs(tier, seed):
     return [('c.decompose', 'c_decompose', {}), ('c.roundtrip', 'c_roundtrip', {}), ('c.inc.delta=1', 'c_inc', dict(mode='one')),
-            ('c.inc.delta=any', 'c_inc', dict(mode='any')), ('c.inc.validation', 'c_validate', dict(seed=seed)), ('py.fn2gsm_time', 'h_py', {})]
+            ('c.inc.delta=any', 'c_inc', dict(mode='any')), ('c.inc.validation', 'c_validate', dict(seed=seed)), ('py.fn2gsm_time', 'h_py', {}), ('py.fn2gsm_time.sequence', 'h_py_seq', {})]
 
 
 def run_job(hid, fname, shape, timeout_ms):
@@ -233,3 +238,17 @@ def h_py(ctx):
     with env.symbolic(ctx), ctx.no_raise('fn2gsm_time:no-exception'):
         t1, t2, t3, tc = T.gsm_shared.HoppingParams.fn2gsm_time(fn)
     ctx.check('t1', eq(t1, fn // 1326)); ctx.check('t2', eq(t2, fn % 26)); ctx.check('t3', eq(t3, fn % 51)); ctx.check('tc', eq(tc, (fn // 51) % 8))
+
+
+def h_py_seq(ctx):
+    """the decomposition is a function of its argument: any sequence of calls (arbitrary frames, consecutive frames across the
+    hyperframe wrap, through the class or through an instance) returns the decomposition of each argument"""
+    T = env.load(ctx, 'gsm_shared')
+    HP = T.gsm_shared.HoppingParams
+    a = ctx.int('fn_a', 0, HYPER - 1); b = ctx.int('fn_b', 0, HYPER - 1)
+    seq = [a, (a + 1) % HYPER, (a + 2) % HYPER, b, a]
+    with env.symbolic(ctx), ctx.no_raise('fn2gsm_time:no-exception'):
+        inst = HP(1, 0, [(1, 2)])
+        got = [(HP if k % 2 == 0 else inst).fn2gsm_time(f) for k, f in enumerate(seq)]
+    for k, (f, (t1, t2, t3, tc)) in enumerate(zip(seq, got)):
+        ctx.check('call%d.t1' % k, eq(t1, f // 1326)); ctx.check('call%d.t2' % k, eq(t2, f % 26)); ctx.check('call%d.t3' % k, eq(t3, f % 51)); ctx.check('call%d.tc' % k, eq(tc, (f // 51) % 8))
